@@ -51,19 +51,19 @@ type Session struct {
 	closed    bool
 	writeFail bool
 
-	outbuf   []byte
-	Out      []Msg
-	seq      int
-	nextID   int
-	extWait  map[string]*simrt.Task // server->client request id -> task blocked on it
-	extFrame map[string]int         // id -> inbound offset at which the response frame ends
-	Panics   []simrt.PanicInfo
+	outbuf     []byte
+	Out        []Msg
+	seq        int
+	nextID     int
+	extWait    map[string]*simrt.Task // server->client request id -> task blocked on it
+	extFrame   map[string]int         // id -> inbound offset at which the response frame ends
+	Panics     []simrt.PanicInfo
 	tokenCache any
 
 	// counters for reach probes
 	ReadCalls, SplitHeader, SplitBody int
-	frameBounds                        []int // end offsets of queued frames
-	hdrBounds                          []int // header end offsets
+	frameBounds                       []int // end offsets of queued frames
+	hdrBounds                         []int // header end offsets
 }
 
 type rwc struct {
@@ -310,7 +310,7 @@ func Start(s *simrt.Sched) *Session {
 	handler := func(ctx context.Context, reply jsonrpc2.Replier, req jsonrpc2.Request) (err error) {
 		defer func() {
 			if r := recover(); r != nil {
-				pi := simrt.PanicInfo{Task: "dispatcher:" + req.Method(), Value: fmt.Sprint(r), Stack: string(debug.Stack())}
+				pi := simrt.PanicInfo{Task: "dispatcher:" + req.Method(), Value: fmt.Sprint(r), Stack: simrt.CleanStack(string(debug.Stack()))}
 				simrt.EnvAtomic("panic", req.Method(), func() *simrt.Resp {
 					sess.Panics = append(sess.Panics, pi)
 					return nil
